@@ -1071,10 +1071,82 @@ pub fn idle() -> Idle {
     Idle(None)
 }
 
+/// A waker of its own for one future: wakes are forwarded to the waker of the task that polled it
+/// last, but only while the future is alive. Once it has been dropped (abandoned or completed) a wake
+/// through a clone that the library kept goes nowhere — exactly what happens when the next call on the
+/// socket is made from another task. By the `Future` contract a library must wake the waker of the most
+/// recent poll of the *current* call; relying on a waker left behind by an earlier call is a lost wake-up.
+struct Gate {
+    alive: std::sync::atomic::AtomicBool,
+    woken: std::sync::atomic::AtomicBool,
+    task: std::sync::Mutex<Option<Waker>>,
+}
+
+impl std::task::Wake for Gate {
+    fn wake(self: Arc<Self>) {
+        self.wake_by_ref();
+    }
+    fn wake_by_ref(self: &Arc<Self>) {
+        if self.alive.load(std::sync::atomic::Ordering::SeqCst) {
+            self.woken.store(true, std::sync::atomic::Ordering::SeqCst);
+            let w = self.task.lock().unwrap().clone();
+            if let Some(w) = w {
+                w.wake();
+            }
+        }
+    }
+}
+
+pub struct OwnWaker<F: Future> {
+    fut: Pin<Box<F>>,
+    gate: Arc<Gate>,
+    /// poll the inner future only when it has not been polled yet or its own waker has fired since
+    /// (what `FuturesUnordered`, `select_all` and similar combinators do): a future that only makes
+    /// progress because its task happens to be polled for another reason has lost its wake-up
+    strict: bool,
+    polled: bool,
+}
+
+impl<F: Future> Future for OwnWaker<F> {
+    type Output = F::Output;
+    fn poll(mut self: Pin<&mut Self>, cx: &mut Context<'_>) -> Poll<F::Output> {
+        *self.gate.task.lock().unwrap() = Some(cx.waker().clone());
+        let fired = self.gate.woken.swap(false, std::sync::atomic::Ordering::SeqCst);
+        if self.strict && self.polled && !fired {
+            return Poll::Pending;
+        }
+        self.polled = true;
+        let w = Waker::from(self.gate.clone());
+        let mut cx2 = Context::from_waker(&w);
+        self.fut.as_mut().poll(&mut cx2)
+    }
+}
+
+impl<F: Future> Drop for OwnWaker<F> {
+    fn drop(&mut self) {
+        self.gate.alive.store(false, std::sync::atomic::Ordering::SeqCst);
+        *self.gate.task.lock().unwrap() = None;
+    }
+}
+
+fn new_gate() -> Arc<Gate> {
+    Arc::new(Gate { alive: std::sync::atomic::AtomicBool::new(true), woken: std::sync::atomic::AtomicBool::new(false), task: std::sync::Mutex::new(None) })
+}
+
+/// Runs `fut` under a waker of its own (see [`Gate`]); every poll of the wrapper polls `fut`.
+pub fn own_waker<F: Future>(fut: F) -> OwnWaker<F> {
+    OwnWaker { fut: Box::pin(fut), gate: new_gate(), strict: false, polled: false }
+}
+
+/// Like [`own_waker`], but `fut` is polled only the first time and after its own waker has fired.
+pub fn own_waker_strict<F: Future>(fut: F) -> OwnWaker<F> {
+    OwnWaker { fut: Box::pin(fut), gate: new_gate(), strict: true, polled: false }
+}
+
 /// Drives `fut` until it completes or the world goes idle with it still pending
-/// (then it is dropped and `None` returned).
+/// (then it is dropped and `None` returned). The future runs under a waker of its own.
 pub async fn until_idle<F: Future>(fut: F) -> Option<F::Output> {
-    let mut fut = Box::pin(fut);
+    let mut fut = Box::pin(own_waker_strict(fut));
     let mut idle = Box::pin(idle());
     // The idle signal is checked first and the future is NOT polled once more when
     // it fires: a spurious extra poll would paper over a lost wake-up.
@@ -1113,7 +1185,7 @@ pub fn yield_now() -> YieldNow {
 /// `Some(output)` if it completed, else drops it and returns `None`. `k == 0`
 /// drops the future without polling it.
 pub async fn poll_k_then_drop<F: Future>(fut: F, k: usize) -> Option<F::Output> {
-    let mut fut = Box::pin(fut);
+    let mut fut = Box::pin(own_waker(fut));
     for i in 0..k {
         let r = PollOnce(fut.as_mut()).await;
         if let Some(v) = r {
